@@ -3,7 +3,7 @@ from __future__ import annotations
 
 import ast
 
-from ..core import (AnalysisError, FuncInfo, Project, attr_chain, const_int, const_str, expand, guards_of, local_defs,
+from ..core import (AnalysisError, FuncInfo, Project, attr_chain, const_int, const_str, enclosing, expand, guards_of, local_defs,
                     term, unparse)
 from ..paths import atoms_of, chain_ops, enumerate_paths
 
@@ -30,7 +30,97 @@ def _predicate_of(prj, fi: FuncInfo):
     return g.target.id, [ast.Return(value=cond)], fi
 
 
+MARKER_TABLE = [
+    # (text, qualifies, class)
+    ("# nocl", True, "plain"), ("#nocl", True, "no-space"), ("#    nocl", True, "spaces"), ("# NOCL", True, "upper-case"),
+    ("# NoCl: reason", True, "mixed-case + trailing text"), ("// nocl", True, "plain"), ("//nocl", True, "no-space"),
+    ("//   NOCL", True, "spaces + upper-case"), ("/* nocl */", True, "plain"), ("/*nocl*/", True, "no-space"), ("/* NoCl */", True, "mixed-case"),
+    ("# see nocl", False, "mentions-later"), ("// this is not nocl", False, "mentions-later"), ("/* x nocl */", False, "mentions-later"),
+    ("# TODO", False, "other"), ("#", False, "empty"), ("// no cl", False, "other"), ("# nolc", False, "other"),
+]
+
+
+def rule_R1_evaluated(ctx, prj):
+    """the marker predicate evaluated over classes of comment text (leader x spacing x case x position of the marker)"""
+    from ..absint import MiniInterp, PyRaise, Unknown
+    from ..patterns import AToken, Interp, Unsupported
+    fi = prj.func(f"{SU}:filter_nocl_comment_tokens")
+    interp = Interp(prj)
+
+    def hook(it, kind, f, args, kwargs, node, cur):
+        if kind == "getattr" and isinstance(f, AToken):
+            if args == "value":
+                return f.value
+            return ("atoken", f, args)
+        if kind == "call" and isinstance(f, tuple) and f and f[0] == "atoken":
+            try:
+                return interp.call_method(f[1], f[2], list(args))
+            except Unsupported as e:
+                raise Unknown(str(e))
+        return NotImplemented
+
+    def qualifies(kind_, text):
+        tok = AToken(kind_, text)
+        res = MiniInterp(prj, hook).call(fi, [[tok]], {})
+        res = list(res.rest()) if hasattr(res, "rest") else list(res)
+        if len(res) > 1 or (res and res[0] is not tok):
+            raise Unknown("result is neither [] nor [t]")
+        return len(res) == 1
+    bad = []
+    n = 0
+    for text, want, cls_ in MARKER_TABLE:
+        for kind_ in ("Comment.Single", "Comment.Multiline", "Comment"):
+            n += 1
+            if qualifies(kind_, text) != want:
+                bad.append((kind_, text, want, cls_))
+    for kind_ in ("Name", "Literal.String", "Text", "Keyword", "Operator"):
+        n += 1
+        if qualifies(kind_, "# nocl"):
+            bad.append((kind_, "# nocl", False, "not-a-comment"))
+    if not bad:
+        ctx.ok("R1", fi.site(), f"filter_nocl_comment_tokens: {n} (token kind, comment text) classes decided as specified: leaders #, //, /* with any "
+                                f"spacing and letter case qualify, comments that mention the marker later and non-comment tokens do not")
+        return
+    classes = {c for _, _, _, c in bad}
+    pos_total = sum(1 for _, w, _ in MARKER_TABLE if w) * 3
+    pos_bad = [(k, t) for k, t, w, _ in bad if w]
+    if "mentions-later" in classes:
+        sub = "not-a-prefix-test"
+        pick = next(x for x in bad if x[3] == "mentions-later")
+    elif "not-a-comment" in classes:
+        sub = "not-only-comments"
+        pick = next(x for x in bad if x[3] == "not-a-comment")
+    elif pos_bad and len(pos_bad) == pos_total:
+        sub, pick = "marker-literal", bad[0]
+    elif pos_bad and all(any(ch.isupper() for ch in t) for _, t in pos_bad):
+        sub, pick = "case", bad[0]
+    elif pos_bad and all(" " in t.strip("/*# ") or t[1:2] == " " or t[2:3] == " " for _, t in pos_bad) and not any(t in ("#nocl", "//nocl", "/*nocl*/") for _, t in pos_bad):
+        sub, pick = "strip", bad[0]
+    elif pos_bad and len({t[:1] for _, t in pos_bad}) == 1:
+        sub, pick = "leader-length", bad[0]
+    else:
+        sub, pick = "final-test", bad[0]
+    kind_, text, want, cls_ = pick
+    what = ("qualifies although it only mentions the marker later in its text: such a comment suppresses the function" if cls_ == "mentions-later" else
+            "qualifies although the token is not a comment" if cls_ == "not-a-comment" else
+            f"{'does not qualify' if want else 'qualifies'}; required: {'qualifies' if want else 'does not qualify'} ({cls_})")
+    ctx.viol("R1", f"filter_nocl_comment_tokens/{sub}", fi.site(), f"a {kind_} token with text {text!r} {what} ({len(bad)} of {n} classes differ)")
+
+
 def rule_R1(ctx, prj):
+    from ..absint import PyRaise, Unknown
+    ctx.rule("R1", "a comment qualifies exactly when it is a comment token whose text, after its leader (#, //, /*) and optional "
+                   "spaces and case-insensitively, BEGINS with 'nocl' - decided by evaluating the predicate over classes of "
+                   "(token kind, comment text); fallback: path analysis of the predicate", floor=1)
+    try:
+        rule_R1_evaluated(ctx, prj)
+        return
+    except (Unknown, PyRaise) as e:
+        ctx.info(f"marker predicate not evaluable ({e}); falling back to the path analysis")
+    rule_R1_paths(ctx, prj)
+
+
+def rule_R1_paths(ctx, prj):
     ctx.rule("R1", "a comment qualifies exactly when, on every path of the predicate: the token is a comment; the tested text "
                    "is case-folded; a recognised leader is removed by a slice of exactly its length and the rest is stripped; "
                    "and the final test is a PREFIX test (startswith) against the literal 'nocl' - not containment, not a "
@@ -112,50 +202,127 @@ def rule_R1(ctx, prj):
         ctx.viol("R1", "filter_nocl_comment_tokens/no-accepting-path", owner.site(), "no path of the predicate can accept a comment: the marker never suppresses")
 
 
+MARK = "filter_nocl_comment_tokens("
+
+
+def _find_marker_test(prj, bs):
+    """locate the membership test against the marker lines: -> (function view, Compare node, element name,
+    collection expression (in that function), mapping of that function's params to build_scopes argument terms)"""
+    def tests(f, is_marker):
+        out = []
+        for n in f.walk():
+            if isinstance(n, ast.Compare) and len(n.ops) == 1 and isinstance(n.ops[0], (ast.In, ast.NotIn)) and is_marker(n.comparators[0]):
+                out.append(n)
+        return out
+    own = tests(bs, lambda e: MARK in term(bs, e))
+    if own:
+        return bs, own, {}
+    for c in bs.calls():
+        args = list(c.args) + [k.value for k in c.keywords]
+        if not any(MARK in term(bs, a) for a in args):
+            continue
+        tg, kind = prj.resolve_call(bs, c)
+        if kind not in ("direct", "self") or len(tg) != 1 or tg[0].qual.endswith(":filter_nocl_comment_tokens"):
+            continue
+        g = prj.func(tg[0].qual)
+        ps = g.params()
+        amap = {}
+        for p, a in zip(ps, c.args):
+            amap[p] = a
+        for k in c.keywords:
+            if k.arg:
+                amap[k.arg] = k.value
+        mp = {p for p, a in amap.items() if MARK in term(bs, a)}
+
+        def is_marker(e, g=g, mp=mp):
+            return any(isinstance(x, ast.Name) and x.id in mp for x in ast.walk(expand(g, e)))
+        found = tests(g, is_marker)
+        if found:
+            return g, found, {"call": c, "amap": amap}
+    return None, [], {}
+
+
 def rule_R2(ctx, prj):
     ctx.rule("R2", "a scope is dropped iff the line of its header's NAME token is among the lines of the marker tokens; the "
                    "filter is pure (new list, scopes untouched)", floor=2)
     bs = prj.func(f"{SCU}:build_scopes")
-    calls = [c for c in bs.calls() if (attr_chain(c.func) or "").startswith("_filter_nocl")]
-    if len(calls) != 1:
-        raise AnalysisError(f"build_scopes: expected one _filter_nocl_* call, found {len(calls)}")
-    tg, _ = prj.resolve_call(bs, calls[0])
-    f = tg[0]
-    rets = [r for r in f.walk() if isinstance(r, ast.Return) and r.value is not None]
-    comps = [r.value for r in rets if isinstance(r.value, ast.ListComp)]
-    if not comps:
-        raise AnalysisError(f"{f.disp}: no filtering comprehension returned")
-    for comp in comps:
-        g = comp.generators[0]
-        s = unparse(g.target)
-        cond = g.ifs[0] if len(g.ifs) == 1 else None
-        ok = False
-        detail = unparse(cond) if cond is not None else "no condition"
-        if isinstance(cond, ast.Compare) and len(cond.ops) == 1 and isinstance(cond.ops[0], ast.NotIn):
-            left = unparse(cond.left)
-            right = expand(f, cond.comparators[0])
-            want_left = (f"{s}.header.name_token.location.line", f"{s}.name_token.location.line")
-            lines_ok = isinstance(right, (ast.ListComp, ast.SetComp, ast.GeneratorExp)) and unparse(right.elt).endswith(".location.line") \
-                and unparse(right.generators[0].iter) in f.params()
-            if isinstance(right, ast.Call) and attr_chain(right.func) in ("set", "frozenset", "list") and right.args:
-                r2 = right.args[0]
-                lines_ok = isinstance(r2, (ast.ListComp, ast.GeneratorExp)) and unparse(r2.elt).endswith(".location.line")
-            if left in want_left and lines_ok:
-                ok = True
-            elif lines_ok:
-                detail = f"compares {left} with the marker lines"
-        if ok:
-            ctx.ok("R2", f.site(comp), f"{f.local}: kept iff name_token.location.line not in marker lines")
+    f, found, info = _find_marker_test(prj, bs)
+    if not found:
+        # positively wrong: the marker lines are intersected with a COLLECTION of lines of the element
+        for g in [bs] + [prj.func(t.qual) for c in bs.calls() for t in prj.resolve_call(bs, c)[0] if prj.resolve_call(bs, c)[1] in ("direct", "self")]:
+            for n in g.walk():
+                setop = (isinstance(n, ast.Call) and isinstance(n.func, ast.Attribute) and n.func.attr in ("intersection", "isdisjoint", "issubset", "issuperset")) or \
+                    (isinstance(n, ast.BinOp) and isinstance(n.op, (ast.BitAnd, ast.Sub)))
+                if setop and ".location.line" in term(g, n) and ("nocl" in unparse(n).lower() or MARK in term(g, n)):
+                    ctx.viol("R2", f"{g.local}/which-line", g.site(n),
+                             f"a function is dropped by the set operation `{unparse(n)[:90]}` between the marker lines and a COLLECTION of lines of the function; "
+                             f"required: exactly when the line of its header's name token is a marker line (a marker on a continuation line of the header, "
+                             f"on the block's first line or elsewhere must not suppress)")
+                    return None
+        raise AnalysisError("build_scopes: no membership test against the marker tokens' lines found (neither in build_scopes nor in a function that receives them)")
+    result = None
+    for m in found:
+        left = term(f, m.left)
+        # element and collection: innermost loop / comprehension around the test
+        elem = coll = None
+        for lp in enclosing(f, m, (ast.For, ast.ListComp, ast.GeneratorExp, ast.SetComp)):
+            tgt, it = (lp.target, lp.iter) if isinstance(lp, ast.For) else (lp.generators[0].target, lp.generators[0].iter)
+            if isinstance(tgt, ast.Name) and (left.startswith(tgt.id + ".") or tgt.id in {x.id for x in ast.walk(expand(f, m.left)) if isinstance(x, ast.Name)}):
+                elem, coll, where = tgt.id, it, lp
+                break
+        if elem is None:
+            raise AnalysisError(f"{f.site(m)}: the element tested against the marker lines is not a loop / comprehension variable")
+        # right side: lines of the marker tokens
+        right = expand(f, m.comparators[0])
+        rt = unparse(right)
+        if ".location.line" not in rt and ".line" not in rt:
+            ctx.viol("R2", f"{f.local}/which-line", f.site(m), f"the test `{unparse(m)[:80]}` does not compare with the LINES of the marker tokens ({rt[:60]})")
+            continue
+        want = (f"{elem}.header.name_token.location.line", f"{elem}.name_token.location.line")
+        # kept iff not in
+        kept_when_in = None
+        if isinstance(where, ast.For):
+            keeps = [c for c in ast.walk(where) if isinstance(c, ast.Call) and isinstance(c.func, ast.Attribute) and c.func.attr == "append"
+                     and c.args and term(f, c.args[0]) in (elem,) or (isinstance(c, ast.Yield) and c.value is not None and term(f, c.value) == elem)]
+            from ..core import atoms_at
+            for k in keeps:
+                for a, pol in atoms_at(f, k):
+                    if a is m:
+                        kept_when_in = (isinstance(m.ops[0], ast.In)) == pol
+            if not keeps or kept_when_in is None:
+                raise AnalysisError(f"{f.site(m)}: how the marker test decides what is kept is not understood")
         else:
-            ctx.viol("R2", f"{f.local}/which-line", f.site(comp),
-                     f"a function is dropped by the test `{detail[:100]}`; required: exactly when the line of its header's name token is a marker line "
+            in_filter = any(any(x is m for x in ast.walk(cnd)) for cnd in where.generators[0].ifs)
+            if not in_filter:
+                raise AnalysisError(f"{f.site(m)}: the marker test is not the comprehension's filter")
+            cond = where.generators[0].ifs
+            pol = True
+            from ..core import implied_atoms
+            kept_when_in = None
+            for cnd in cond:
+                for a, p2 in implied_atoms(cnd, True):
+                    if a is m:
+                        kept_when_in = isinstance(m.ops[0], ast.In) == p2
+            if kept_when_in is None:
+                raise AnalysisError(f"{f.site(m)}: polarity of the marker test not understood")
+        if kept_when_in:
+            ctx.viol("R2", f"{f.local}/which-line", f.site(m), f"a function is KEPT exactly when `{unparse(m)[:80]}`: the marked functions are the only ones reported")
+        elif left in want:
+            ctx.ok("R2", f.site(m), f"{f.local}: kept iff {left} not in marker lines")
+        else:
+            ctx.viol("R2", f"{f.local}/which-line", f.site(m),
+                     f"a function is dropped by the test `{unparse(m)[:100]}` (on {left[:60]}); required: exactly when the line of its header's name token is a marker line "
                      f"(a marker on a continuation line of the header, on the block's first line or elsewhere must not suppress)")
-    muts = [n for n in f.walk() if isinstance(n, (ast.Assign, ast.AugAssign)) and any(isinstance(t, ast.Attribute) for t in (n.targets if isinstance(n, ast.Assign) else [n.target]))]
-    if muts:
-        ctx.viol("R2", f"{f.local}/impure", f.site(muts[0]), "the marker filter modifies scopes instead of only selecting them")
+        result = (f, m, elem, coll, info)
+    if f is not bs:
+        muts = [n for n in f.walk() if isinstance(n, (ast.Assign, ast.AugAssign)) and any(isinstance(t, ast.Attribute) for t in (n.targets if isinstance(n, ast.Assign) else [n.target]))]
+        if muts:
+            ctx.viol("R2", f"{f.local}/impure", f.site(muts[0]), "the marker filter modifies scopes instead of only selecting them")
+        else:
+            ctx.ok("R2", f.site(), f"{f.local}: pure filter")
     else:
-        ctx.ok("R2", f.site(), f"{f.local}: pure filter")
-    return f, calls[0]
+        ctx.ok("R2", f.site(), "marker filter inside build_scopes: selects only")
+    return result
 
 
 def rule_R3(ctx, prj):
@@ -174,31 +341,61 @@ def rule_R3(ctx, prj):
             ctx.viol("R3", "build_scopes/marker-source", bs.site(c), f"markers are computed from {a[:70]}: comment tokens have already been filtered out there, so no marker is ever found")
 
 
-def rule_R4(ctx, prj, f, call):
+def rule_R4(ctx, prj, res):
     ctx.rule("R4", "the marker filter is applied to the finished flat scope list (after header/block pairing) and its result is "
-                   "what nesting (fold_scopes / filter_scopes_nested_functions) receives", floor=2)
+                   "what nesting (fold_scopes / filter_scopes_nested_functions) receives", floor=1)
     bs = prj.func(f"{SCU}:build_scopes")
-    arg = expand(bs, call.args[0])
-    if isinstance(arg, ast.Call) and prj.resolve_callee_name(bs, arg).endswith(":_build_scopes_from_headers_and_blocks"):
-        ctx.ok("R4", bs.site(call), "build_scopes: marker filter applied to the result of _build_scopes_from_headers_and_blocks")
+    if res is None:
+        ctx.info("marker filter not located (R2 reports why): position rule R4 not judged")
+        ctx.ok("R4", bs.site(), "not judged: marker filter not located")
+        return
+    f, m, elem, coll, info = res
+    # the filtered collection, as a term of build_scopes
+    ct = term(f, coll)
+    if f is not bs:
+        names = {x.id for x in ast.walk(expand(f, coll)) if isinstance(x, ast.Name)} & set(info["amap"])
+        if len(names) != 1:
+            raise AnalysisError(f"{f.site(m)}: the filtered collection {ct[:50]} is not a parameter")
+        ct = term(bs, info["amap"][names.pop()])
+    site = bs.site(info["call"]) if f is not bs else f.site(m)
+    if "_build_scopes_from_headers_and_blocks(" in ct:
+        ctx.ok("R4", site, "build_scopes: marker filter applied to the result of _build_scopes_from_headers_and_blocks")
     else:
-        ctx.viol("R4", "build_scopes/filter-position", bs.site(call),
-                 f"the marker filter is applied to {unparse(arg)[:80]} instead of the paired scopes: removing a header before pairing leaves its block "
+        ctx.viol("R4", "build_scopes/filter-position", site,
+                 f"the marker filter is applied to {ct[:80]} instead of the paired scopes: removing a header before pairing leaves its block "
                  f"unclaimed, and a neighbouring header without a block of its own picks it up (phantom function with the marked function's span)")
-    # result flows into both nesting functions
-    res_name = None
-    par = bs.parents.get(call)
-    if isinstance(par, ast.Assign) and isinstance(par.targets[0], ast.Name):
-        res_name = par.targets[0].id
     nest = [c for c in bs.calls() if (attr_chain(c.func) or "") in ("fold_scopes", "filter_scopes_nested_functions")]
-    if not nest:
-        raise AnalysisError("build_scopes: nesting calls not found")
+    mt = unparse(m)
     for c in nest:
-        a = unparse(c.args[0])
-        if res_name is not None and a == res_name or unparse(expand(bs, c.args[0])) == unparse(expand(bs, call)):
+        a = term(bs, c.args[0]) if c.args else ""
+        filtered = (f is not bs and f"{f.name}(" in a) or (f is bs and (mt in a or _filled_under(bs, c.args[0], m)))
+        if filtered:
             ctx.ok("R4", bs.site(c), f"build_scopes: {attr_chain(c.func)} receives the filtered scopes")
         else:
-            ctx.viol("R4", f"build_scopes/{attr_chain(c.func)}-input", bs.site(c), f"{attr_chain(c.func)} receives {a}, not the marker-filtered scopes: marked functions are reported, or are filtered after nesting re-parented their neighbours")
+            ctx.viol("R4", f"build_scopes/{attr_chain(c.func)}-input", bs.site(c), f"{attr_chain(c.func)} receives {a[:60]}, not the marker-filtered scopes: marked functions are reported, or are filtered after nesting re-parented their neighbours")
+    if not nest:
+        ctx.ok("R4", bs.site(), "build_scopes: nesting is fused with the marker filter (no separate nesting call)")
+
+
+def _filled_under(bs, arg, m) -> bool:
+    """arg names a list that is appended to under the marker test m"""
+    from ..core import atoms_at
+    if not isinstance(arg, ast.Name):
+        return False
+    names, todo = set(), [arg.id]
+    while todo:
+        nme = todo.pop()
+        if nme in names:
+            continue
+        names.add(nme)
+        for v, _ in local_defs(bs, nme):
+            if isinstance(v, ast.Name):
+                todo.append(v.id)
+    for c in bs.calls():
+        if isinstance(c.func, ast.Attribute) and c.func.attr == "append" and isinstance(c.func.value, ast.Name) and c.func.value.id in names:
+            if any(a is m for a, _ in atoms_at(bs, c)):
+                return True
+    return False
 
 
 def run(ctx, prj: Project):
@@ -211,6 +408,6 @@ def run(ctx, prj: Project):
     ctx.not_decided = ["every other function keeps its name, span and length for all programs (inherits C01's main clause)"]
     ctx.trust("CPython ast", "str.startswith/lower/strip semantics")
     rule_R1(ctx, prj)
-    f, call = rule_R2(ctx, prj)
+    res = rule_R2(ctx, prj)
     rule_R3(ctx, prj)
-    rule_R4(ctx, prj, f, call)
+    rule_R4(ctx, prj, res)
